@@ -6,8 +6,8 @@
    byte string.  For the verifiers the decision logic is proved with the P-256 / Ed25519
    verification, SHA-256, the serde-json-core parser and the XDR decoder as arbitrary
    functions (oracles): the statements hold for every choice of them. *)
-From SC Require Import Lib.Prelude Lib.Int Model.Base64 Model.Verifiers
-  Proofs.Base64 Proofs.Verifiers Proofs.VerifiersIdeal Run.C18 Proofs.C18Monitor.
+From SC Require Import Lib.Prelude Lib.Int Model.Base64 Model.Verifiers Model.ClientDataSpec
+  Model.SigDataXdrSpec Proofs.Base64 Proofs.Verifiers Proofs.VerifiersIdeal Run.C18 Proofs.C18Monitor.
 
 (* ---- base64url ---- *)
 (* RFC 4648 section 5 written out: the octets as one bit string (most significant bit
@@ -97,6 +97,33 @@ Theorem C18_webauthn_binds_payload : forall c parse sha256 pv p1 p2 key1 key2 si
 Proof. exact wa_binds_payload. Qed.
 Print Assumptions C18_webauthn_binds_payload.
 
+(* "any change of key or signature is rejected", as far as it can be stated with the signature
+   scheme as an oracle: once an assertion is accepted, the same assertion under another key
+   and/or signature is accepted exactly when the oracle accepts the new (key, signature) on
+   the SAME digest sha256 (auth_data ++ sha256 client_data), and fails when it does not. *)
+Theorem C18_webauthn_key_sig_change : forall c parse sha256 pv payload key sig ad cd,
+  bytes_ok payload = true ->
+  wa_verify c parse sha256 pv payload key sig ad cd = Ok true ->
+  forall key' sig',
+    (wa_verify c parse sha256 pv payload key' sig' ad cd = Ok true <->
+     pv key' (sha256 (ad ++ sha256 cd)) sig' = true)
+    /\ (pv key' (sha256 (ad ++ sha256 cd)) sig' = false ->
+        wa_verify c parse sha256 pv payload key' sig' ad cd = Fail).
+Proof. exact wa_key_sig_change. Qed.
+Print Assumptions C18_webauthn_key_sig_change.
+
+(* DEVIATION from the text ("exactly the 32-byte payload"), outside the property's domain (the
+   host passes a 32-byte hash): for a payload of MORE than 32 bytes the verdict is that of its
+   first 32 bytes - the rest is ignored.  (Payloads shorter than 32 bytes are rejected, see
+   C18_webauthn_iff.)  See also the Example C18_deviation_long_payload_accepted below. *)
+Theorem C18_webauthn_deviation_long_payload_judged_on_prefix :
+  forall c parse sha256 pv payload key sig ad cd,
+  bytes_ok payload = true -> 32 <= len payload ->
+  wa_verify c parse sha256 pv payload key sig ad cd
+  = wa_verify c parse sha256 pv (firstn 32 payload) key sig ad cd.
+Proof. exact wa_long_payload_prefix. Qed.
+Print Assumptions C18_webauthn_deviation_long_payload_judged_on_prefix.
+
 (* with idealised oracles - a collision-free hash with 32-byte output and a signature that
    validates a single digest under a key - one signature authorises one authenticator data,
    one client data and one payload: any change to the signed bytes or the payload is rejected.
@@ -122,20 +149,47 @@ Proof. exact ed_verify_iff. Qed.
 Print Assumptions C18_ed25519_iff.
 
 (* ---- the monitor run on the implementation's traces accepts every run of the model ---- *)
+(* [wf_trace] is the boolean the monitor itself checks of the inputs: documented bounds in the
+   header, bytes and sizes, the oracle answers consistent with the printed client data / XDR
+   bytes (re-read by the monitor's own readers) and with each other, the generator's tags
+   justified by the specification. *)
 Theorem C18_monitor_accepts_model : forall (c : cfg) (cs : list call),
-  forallb (wf_call c) cs = true -> check (c, map (model_obs c) cs) = (0%N, 0%N, 0%N).
+  wf_trace c cs = true -> check (c, map (model_obs c) cs) = (0%N, 0%N, 0%N).
 Proof. exact check_accepts_model. Qed.
 Print Assumptions C18_monitor_accepts_model.
 
 (* ------------------------------------------------------------------ *)
 (* Examples *)
+Module Ex.
+  Import Strings.Ascii Strings.String.
+  Definition asc (s : string) : list Z := map (fun a => Z.of_N (N_of_ascii a)) (list_ascii_of_string s).
+  Definition cd_of (ty ch : list Z) : list Z :=
+    asc "{""type"":""" ++ ty ++ asc """,""challenge"":""" ++ ch ++ asc """,""origin"":""https://example.com""}".
+  Definition t_create := asc "webauthn.create".
+  Definition t_get := asc "webauthn.get".
+  Definition cd_dup := asc "{""type"":""a"",""type"":""a"",""challenge"":""c""}".
+  Definition cd_esc := asc "{""type"":""webauthn.g\u0065t"",""challenge"":""c""}".
+  Definition cd_trail := asc "{""type"":""a"",""challenge"":""c""}x".
+  Definition cd_nostr := asc "{""type"":5,""challenge"":""c""}".
+  Definition cd_decoy := asc "{""o"":""\"",\""type\"":\""webauthn.get"",""x"":{""type"":""b""},""type"":""a"",""challenge"":""c"",""n"":[1,-2.5e+3,null,true]} ".
+  Definition cd_lenient := asc "{""type"":""a"",""challenge"":""c"",""crossOrigin"":fal{e}".
+End Ex.
+
 Definition cfg0 : cfg := {| max_cd := 1024; min_ad := 37 |}.
 Definition pay0 : list Z := map Z.of_nat (seq 200 32).
 Definition ch0 : list Z := rfc4648_url_nopad pay0.
+Definition cd0 : list Z := Ex.cd_of Ex.t_get ch0.
 Definition ad0 (flags : Z) : list Z := repeat 7 32 ++ flags :: [0; 0; 0; 1].
 Definition asn0 (flags : Z) (sigok : bool) (e : option bool) : assertion :=
-  {| a_payload := pay0; a_key := repeat 4 65; a_sig := repeat 1 64; a_ad := ad0 flags; a_cd := [123; 125];
+  {| a_payload := pay0; a_key := repeat 4 65; a_sig := repeat 1 64; a_ad := ad0 flags; a_cd := cd0;
      a_parsed := Some (WEBAUTHN_GET, ch0); a_sigok := sigok; a_expect := e |}.
+(* the XDR form of WebAuthnSigData { authenticator_data = ad0 29, client_data = cd0, signature = 1^64 } *)
+Definition be32 (n : Z) : list Z := [n / 16777216 mod 256; n / 65536 mod 256; n / 256 mod 256; n mod 256].
+Definition xpad (l : list Z) : list Z := l ++ repeat 0 (Z.to_nat ((4 - len l mod 4) mod 4)).
+Definition xentry (name v : list Z) : list Z :=
+  be32 15 ++ be32 (len name) ++ xpad name ++ be32 13 ++ be32 (len v) ++ xpad v.
+Definition xdr0 : list Z :=
+  be32 17 ++ be32 1 ++ be32 3 ++ xentry NAME_AD (ad0 29) ++ xentry NAME_CD cd0 ++ xentry NAME_SIG (repeat 1 64).
 
 (* RFC 4648 test vectors ("f", "fo", "foo", "foob", "fooba", "foobar" without padding) and
    the two characters that differ from standard base64 *)
@@ -147,16 +201,36 @@ Example C18_rfc_vectors :
   rfc4648_url_nopad [251; 255] = [45; 95; 56] /\ encode [251; 255] = [45; 95; 56].
 Proof. vm_compute. repeat split. Qed.
 
+(* the monitor's readers on sample inputs *)
+Example C18_readers :
+  cd_fields cd0 = CdPlain WEBAUTHN_GET ch0 /\
+  cd_fields Ex.cd_decoy = CdPlain [97] [99] /\
+  cd_fields Ex.cd_dup = CdOther /\ cd_fields Ex.cd_esc = CdOther /\ cd_fields Ex.cd_lenient = CdOther /\
+  cd_fields Ex.cd_trail = CdInvalid /\ cd_fields Ex.cd_nostr = CdInvalid /\ cd_fields [123; 125] = CdInvalid /\
+  xdr_sigdata xdr0 = Some (repeat 1 64, ad0 29, cd0) /\
+  xdr_sigdata (xdr0 ++ [0; 0; 0; 0]) = None /\ xdr_sigdata (removelast xdr0) = None.
+Proof. vm_compute. repeat split. Qed.
+
 (* non-vacuity: the oracles instantiated; a genuine assertion is accepted by the model, and the
    hypotheses of C18_webauthn_iff hold on it *)
 Example C18_accepts_genuine :
-  let parse := fun cd : list Z => if eqb_bytes cd [123; 125] then Some (WEBAUTHN_GET, ch0) else None in
+  let parse := fun cd : list Z => if eqb_bytes cd cd0 then Some (WEBAUTHN_GET, ch0) else None in
   let sha := fun m : list Z => [Z.of_nat (length m)] in
   let pv := fun key dig sig : list Z => eqb_bytes dig [38] in
   bytes_ok pay0 = true /\
-  wa_verify cfg0 parse sha pv pay0 (repeat 4 65) (repeat 1 64) (ad0 29) [123; 125] = Ok true /\
-  wa_verify cfg0 parse sha pv pay0 (repeat 4 65) (repeat 1 64) (ad0 21) [123; 125] = Fail /\
-  wa_verify cfg0 parse sha pv (0 :: tl pay0) (repeat 4 65) (repeat 1 64) (ad0 29) [123; 125] = Fail.
+  wa_verify cfg0 parse sha pv pay0 (repeat 4 65) (repeat 1 64) (ad0 29) cd0 = Ok true /\
+  wa_verify cfg0 parse sha pv pay0 (repeat 4 65) (repeat 1 64) (ad0 21) cd0 = Fail /\
+  wa_verify cfg0 parse sha pv (0 :: tl pay0) (repeat 4 65) (repeat 1 64) (ad0 29) cd0 = Fail.
+Proof. vm_compute. repeat split. Qed.
+
+(* the deviation made explicit: two different 33-byte payloads are accepted with one assertion *)
+Example C18_deviation_long_payload_accepted :
+  let parse := fun cd : list Z => if eqb_bytes cd cd0 then Some (WEBAUTHN_GET, ch0) else None in
+  let sha := fun m : list Z => [Z.of_nat (length m)] in
+  let pv := fun key dig sig : list Z => eqb_bytes dig [38] in
+  wa_verify cfg0 parse sha pv (pay0 ++ [7]) (repeat 4 65) (repeat 1 64) (ad0 29) cd0 = Ok true /\
+  wa_verify cfg0 parse sha pv (pay0 ++ [8]) (repeat 4 65) (repeat 1 64) (ad0 29) cd0 = Ok true /\
+  wa_verify cfg0 parse sha pv (firstn 31 pay0) (repeat 4 65) (repeat 1 64) (ad0 29) cd0 = Fail.
 Proof. vm_compute. repeat split. Qed.
 
 (* the premises of C18_webauthn_signed_bytes_bound are consistent *)
@@ -166,11 +240,20 @@ Example C18_ideal_oracles_exist : exists (sha256 : list Z -> list Z) (pv : list 
   (forall k s d1 d2, pv k d1 s = true -> pv k d2 s = true -> d1 = d2).
 Proof. exists ideal_sha, ideal_pv. exact ideal_instance. Qed.
 
-(* the monitor accepts the genuine observation and rejects: an accepted assertion without the
-   UV flag, an accepted one with BS but not BE, a rejected genuine one, an accepted one whose
-   signature does not verify, an answer "false", a wrong base64 alphabet, a padded encoding *)
+(* the monitor accepts the genuine observations (library and contract) ... *)
+Example C18_monitor_accepts :
+  check (cfg0, [(WaLib (asn0 29 true (Some true)), Ok (OBool true));
+                (WaEx (repeat 4 65 ++ [9; 9]) xdr0 true (asn0 29 true (Some true)), Ok (OBool true));
+                (WaLib (asn0 21 true (Some false)), Fail);
+                (EdLib [1] (repeat 2 32) (repeat 3 64) true (Some true), Ok (OBool true))]) = (0, 0, 0)%N /\
+  wf_trace cfg0 [WaLib (asn0 29 true (Some true)); WaEx (repeat 4 65 ++ [9; 9]) xdr0 true (asn0 29 true (Some true))] = true.
+Proof. vm_compute. split; reflexivity. Qed.
+
+(* ... and rejects: an accepted assertion without the UV flag, with BS but not BE, a rejected
+   genuine one, an accepted one whose signature does not verify, an answer "false", a wrong
+   base64 alphabet, a padded encoding, an accepted invalid Ed25519 signature, a wrong flag
+   verdict, single flag validators swapped *)
 Example C18_monitor_rejects :
-  check (cfg0, [(WaLib (asn0 29 true (Some true)), Ok (OBool true))]) = (0, 0, 0)%N /\
   check (cfg0, [(WaLib (asn0 1 true None), Ok (OBool true))]) = (1, 1, 0)%N /\
   check (cfg0, [(WaLib (asn0 21 true None), Ok (OBool true))]) = (1, 1, 0)%N /\
   check (cfg0, [(WaLib (asn0 29 true (Some true)), Ok (OBool true)); (WaLib (asn0 29 true (Some true)), Fail)]) = (2, 2, 0)%N /\
@@ -178,8 +261,9 @@ Example C18_monitor_rejects :
   check (cfg0, [(WaLib (asn0 29 false None), Ok (OBool false))]) = (1, 1, 0)%N /\
   check (cfg0, [(B64 3 [251; 255], Ok (OBytes [43; 47; 56]))]) = (1, 1, 0)%N /\
   check (cfg0, [(B64 4 [251; 255], Ok (OBytes [45; 95; 56; 61]))]) = (1, 1, 0)%N /\
-  check (cfg0, [(EdLib [1] [2] [3] false None, Ok (OBool true))]) = (1, 1, 0)%N /\
-  check (cfg0, [(Flags 5, Ok OUnit); (Flags 21, Ok OUnit)]) = (2, 2, 0)%N.
+  check (cfg0, [(EdLib [1] (repeat 2 32) (repeat 3 64) false None, Ok (OBool true))]) = (1, 1, 0)%N /\
+  check (cfg0, [(Flags 5, Ok OUnit); (Flags 21, Ok OUnit)]) = (2, 2, 0)%N /\
+  check (cfg0, [(FlagOne 0 4, Ok OUnit)]) = (1, 1, 0)%N /\ check (cfg0, [(FlagOne 1 1, Ok OUnit)]) = (1, 1, 0)%N.
 Proof. vm_compute. repeat split. Qed.
 
 (* the monitor is not the model: an observation on which model and implementation would agree
@@ -187,3 +271,42 @@ Proof. vm_compute. repeat split. Qed.
 Example C18_monitor_independent :
   check (cfg0, [(WaLib (asn0 29 true (Some false)), Ok (OBool true))]) = (0, 1, 0)%N.
 Proof. vm_compute. reflexivity. Qed.
+
+(* The adversarial review's traces (/verif/.cache/review/C18.md), all rejected now (monitor index > 0):
+   t1  client data that literally says webauthn.create / challenge AAAA with a_parsed claiming otherwise;
+   t1' the same with an undecodable sig_data claimed decoded;
+   t2b a 33-byte payload tagged "genuine";
+   t3  a header with other bounds (5000-byte client data, 33-byte authenticator data accepted);
+   t3' the documented header but a 1025-byte client data accepted;
+   t4  Ed25519 "valid" with impossible key / signature sizes;
+   t5  the same assertion with two different signature verdicts;
+   t6  extract_from_bytes returning wrong bytes for unusual bound kinds;
+   t7  one client data with two different parses. *)
+Example C18_review_traces_rejected :
+  let a1 := {| a_payload := pay0; a_key := repeat 0 65; a_sig := repeat 0 64; a_ad := ad0 5;
+               a_cd := Ex.cd_of Ex.t_create [65; 65; 65; 65];
+               a_parsed := Some (WEBAUTHN_GET, ch0); a_sigok := true; a_expect := None |} in
+  let a2 := {| a_payload := pay0 ++ [7]; a_key := repeat 4 65; a_sig := repeat 1 64; a_ad := ad0 5; a_cd := cd0;
+               a_parsed := Some (WEBAUTHN_GET, ch0); a_sigok := true; a_expect := Some true |} in
+  let a3 := {| a_payload := pay0; a_key := repeat 4 65; a_sig := repeat 1 64; a_ad := repeat 7 32 ++ [5];
+               a_cd := cd0 ++ repeat 32 5000;
+               a_parsed := Some (WEBAUTHN_GET, ch0); a_sigok := true; a_expect := None |} in
+  let a3' := {| a_payload := pay0; a_key := repeat 4 65; a_sig := repeat 1 64; a_ad := ad0 5;
+                a_cd := cd0 ++ repeat 32 (Z.to_nat (1025 - len cd0));
+                a_parsed := Some (WEBAUTHN_GET, ch0); a_sigok := true; a_expect := None |} in
+  let a7 := {| a_payload := pay0; a_key := repeat 4 65; a_sig := repeat 1 64; a_ad := ad0 5; a_cd := Ex.cd_esc;
+               a_parsed := Some (WEBAUTHN_GET, ch0); a_sigok := true; a_expect := None |} in
+  let a7' := {| a_payload := pay0; a_key := repeat 4 65; a_sig := repeat 1 64; a_ad := ad0 5; a_cd := Ex.cd_esc;
+                a_parsed := None; a_sigok := true; a_expect := None |} in
+  snd (fst (check (cfg0, [(WaLib a1, Ok (OBool true))]))) = 1%N /\
+  snd (fst (check (cfg0, [(WaEx (repeat 4 65) [1; 2; 3] true (asn0 5 true None), Ok (OBool true))]))) = 1%N /\
+  snd (fst (check (cfg0, [(WaLib a2, Ok (OBool true))]))) = 1%N /\
+  snd (fst (check ({| max_cd := 100000; min_ad := 0 |}, [(WaLib a3, Ok (OBool true))]))) = 1%N /\
+  snd (fst (check (cfg0, [(WaLib a3', Ok (OBool true))]))) = 1%N /\
+  snd (fst (check (cfg0, [(EdLib [1] [2] [3] true None, Ok (OBool true))]))) = 1%N /\
+  snd (fst (check (cfg0, [(EdEx [] [] [] true (Some true), Ok (OBool true))]))) = 1%N /\
+  snd (fst (check (cfg0, [(WaLib (asn0 5 true None), Ok (OBool true)); (WaLib (asn0 5 false None), Fail)]))) = 2%N /\
+  snd (fst (check (cfg0, [(Extract 3 Unbounded Unbounded [1; 2; 3], Ok (OOpt (Some [9; 9; 9])))]))) = 1%N /\
+  snd (fst (check (cfg0, [(Extract 3 (Included 0) (Included 2) [1; 2; 3], Ok (OOpt (Some [9; 9; 9])))]))) = 1%N /\
+  snd (fst (check (cfg0, [(WaLib a7, Ok (OBool true)); (WaLib a7', Fail)]))) = 2%N.
+Proof. vm_compute. repeat split. Qed.
